@@ -15,6 +15,24 @@ Written from the language guide, without importing Amaranth.  Deliberately tiny:
 __all__ = ["Ref", "shape_of", "bits_for_states"]
 
 
+def all_fsms(stmts):
+    """every FSM descriptor in a statement list, nested ones (an FSM inside a State of another FSM) included"""
+    for st in stmts:
+        k = st[0]
+        if k == "fsm":
+            yield st[1]
+            for name, body in st[1]["states"]:
+                yield from all_fsms(body)
+        elif k == "if":
+            for arm in st[1]:
+                yield from all_fsms(arm[1])
+            if st[2]:
+                yield from all_fsms(st[2])
+        elif k == "switch":
+            for pats, body in st[2]:
+                yield from all_fsms(body)
+
+
 def to_signed(v, w):
     if w == 0:
         return 0
@@ -31,9 +49,8 @@ class Ref:
         self._flatten(prog["top"], [])
         self.fsm_state = {}     # fsm id -> state name
         for m, chain in self.mods:
-            for st in m["stmts"]:
-                if st[0] == "fsm":
-                    self.fsm_state[st[1]["id"]] = st[1]["init"] if st[1]["init"] is not None else st[1]["states"][0][0]
+            for f in all_fsms(m["stmts"]):
+                self.fsm_state[f["id"]] = f["init"] if f["init"] is not None else f["states"][0][0]
         self.doms = {d["name"]: d for d in prog["domains"]}
         self.rst = {d["name"]: 0 for d in prog["domains"]}
         self.clk = {d["name"]: 0 for d in prog["domains"]}
@@ -320,9 +337,9 @@ class Ref:
                     for si, mask in self.owned(mi, od).items():
                         if not self.sigs[si]["reset_less"]:
                             self.val[si] = (self.val[si] & ~mask) | (self.sigs[si]["init"] & mask)
-                    for st in m["stmts"]:
-                        if st[0] == "fsm" and st[1]["domain"] == od:
-                            self.fsm_state[st[1]["id"]] = st[1]["init"] if st[1]["init"] is not None else st[1]["states"][0][0]
+                    for f in all_fsms(m["stmts"]):
+                        if f["domain"] == od:
+                            self.fsm_state[f["id"]] = f["init"] if f["init"] is not None else f["states"][0][0]
         self.settle()
 
     def set_clock(self, dom, level):
@@ -386,9 +403,8 @@ class Ref:
                     if rst and not self.sigs[si]["reset_less"]:
                         new = init
                     updates.append((si, mask, new))
-                for st in m["stmts"]:
-                    if st[0] == "fsm" and st[1]["domain"] == od:
-                        f = st[1]
+                for f in all_fsms(m["stmts"]):
+                    if f["domain"] == od:
                         fid = f["id"]
                         initst = f["init"] if f["init"] is not None else f["states"][0][0]
                         new = fsm_next.get(fid, self.fsm_state[fid])
